@@ -100,6 +100,15 @@ def check_timeline(spec, o, who='sim'):
             if ln != 0:
                 fail('results-len', 'shape', f'result {name} has {ln} entries for 0 time points'); break
         return fails
+    # a start that lies after the stop leaves no grid point: the consistent timeline is empty
+    a_, b_ = spec['start'], spec['stop']
+    if (is_date(a_) and is_date(b_) and to_date(a_) > to_date(b_)) or (not is_date(a_) and not is_date(b_) and num(a_) > num(b_)):
+        first = o.datevec[0] if is_date(a_) else o.timevec[0]
+        want = to_date(a_) if is_date(a_) else num(a_)
+        single = (n == 1 and ((first == want) if is_date(a_) else abs(first - want) <= TOL))
+        fail('grid-length', 'start-after-stop-single-point' if single else 'start-after-stop',
+             f'start={a_} lies after stop={b_} but the timeline has {n} point(s), the first at {first}: no grid point is <= stop')
+        return fails
     # elapsed time: tvec[i] = i*dt
     for i, t in enumerate(o.tvec):
         if abs(t - i * dt) > TOL:
